@@ -221,7 +221,10 @@ impl<F: Write + Seek> Allocator<F> {
         debug_assert_ne!(start_sector_id, consts::END_OF_CHAIN);
         let mut last_sector_id = start_sector_id;
         loop {
-            let next = self.fat[last_sector_id as usize];
+            // The chain may have been damaged since it was validated (e.g.
+            // if another object's chain shared its sectors and was freed),
+            // so use the checked lookup.
+            let next = self.next(last_sector_id)?;
             if next == consts::END_OF_CHAIN {
                 break;
             }
